@@ -7,9 +7,9 @@ Proved (all inputs):
 * `parse_error_positions`: every parser diagnostic emitted by `intersperse_trivia` sits at the
   start offset of a raw token (or at the end of the text): `pos = text_start(p)`, `p ≤ len`;
 * `text_start_le` : such an offset never exceeds the length of the text.
-NOT proved: "no silent error node" needs every `bump_any` call site of the grammar to know the
-kind or to have logged an error first; the unchanged grammar has a blind site
-(`array_type_spec`, known finding F10). The check's oracle decides it on the implementation.
+"No silent error node" is proved in `Props/C12NoSilent.lean` (for the repaired grammar; the pinned
+grammar had one blind site, `array_type_spec`, finding F10), the semantic clause in
+`Props/C12Sema.lean`.
 -/
 import Oq3.Props.C14
 import Oq3.Lemmas.Builder
